@@ -115,7 +115,9 @@ int main(int argc, char** argv) {
             {"-c", leg}, {"-c", leg, "-f", "8000"}, {"-c", leg, "-V", "1.1e6", "-N", "700"},
             {"-F", "2715563.7", "-E", "1.2345678e9", "-I", "0.00123456789", "0.000987654321", "-f", "8765.4321", "--alpha1", "0.0123456789", "-T", "3.14159265", "-d", "0.010432118746123",
              "-V", "1234567.89", "--CutoffFreq", "2.3456789e10", "--VacuumGap", "0.0323456789", "--InitialDistZoom", "1.23456789"},
-            {"--PhaseSpaceShiftX", "5", "--PhaseSpaceShiftY", "-3", "--padding", "4", "--RoundPadding", "0", "--InterpolationPoints", "3", "--derivation", "4"}};
+            {"--PhaseSpaceShiftX", "5", "--PhaseSpaceShiftY", "-3", "--padding", "4", "--RoundPadding", "0", "--InterpolationPoints", "3", "--derivation", "4"},
+            // file names with blanks (text options are written verbatim: the config-file parser keeps quotes as part of the value)
+            {"--tracking", "tracked particles.txt", "--Impedance", "my impedance table.dat", "-i", "results 2019/run 1.h5", "-o", "out dir/next run.h5"}};
         int si = 0;
         for (auto& args : scen) {
             si++;
